@@ -228,6 +228,12 @@ func (w *Writer) Delete(bs []byte) (success bool) {
 
 // Delete2 is same as Delete(). Additionally returns the deleted item's node
 func (w *Writer) Delete2(bs []byte) (n *skiplist.Node, success bool) {
+	// Keep the node returned by the lookup alive until DeleteNode is done with it:
+	// a concurrent delete of the same item may otherwise unlink and free it in between
+	barrier := w.store.GetAccesBarrier()
+	token := barrier.Acquire()
+	defer barrier.Release(token)
+
 	if n := w.GetNode(bs); n != nil {
 		return n, w.DeleteNode(n)
 	}
